@@ -79,6 +79,7 @@ func TestC09(t *testing.T) {
 		prog := &ts.Program{Files: map[string]*ts.File{}, Main: "main.tsh"}
 		libsWithTopCalls := 0
 		usesOwnGlobal := false
+		leadingTop := false
 		hasGlobal := map[int]bool{}
 		wantDigit := map[int]bool{}
 		// build libs from the last to the first so that callee signatures are known
@@ -109,6 +110,11 @@ func TestC09(t *testing.T) {
 			}
 			x := ts.VarRef{Name: "x", Ty: ts.TInt}
 			if i > 0 {
+				// a library may start with executable top-level code before its first definition
+				if gen.Uniform(0, 2).Draw(t, "leading-top-level") == 0 {
+					f.Stmts = append(f.Stmts, ts.Print{Args: []ts.Expr{ts.StrLit{V: tag + "-start"}}})
+					leadingTop = true
+				}
 				// globals, used by top-level code only
 				ng := gen.Uniform(0, 2).Draw(t, "nglobals")
 				gnames := []string{"Count", "state"}[:ng]
@@ -261,6 +267,9 @@ func TestC09(t *testing.T) {
 		}
 		if usesOwnGlobal {
 			r.Class("library-function-uses-own-global")
+		}
+		if leadingTop {
+			r.Class("library-starts-with-top-level-code")
 		}
 		r.Class(fmt.Sprintf("files-%d", nlibs+1))
 		all := mainSource(srcs, "main.tsh")
